@@ -32,7 +32,21 @@ type tzOpt struct {
 	loc  *time.Location
 }
 
-var tzOptions = []tzOpt{{"nil", nil}, {"UTC", time.UTC}, {"+05:30", zoneIST}, {"America/New_York", zoneNY}, {"Europe/London", zoneLondon}}
+var tzOptions = []tzOpt{{"nil", nil}, {"UTC", time.UTC}, {"+05:30", zoneIST}, {"America/New_York", zoneNY}, {"Europe/London", zoneLondon},
+	// two different zones that print the same name
+	{"EST(-5h)", time.FixedZone("EST", -5*3600)}, {"EST(+10h)", time.FixedZone("EST", 10*3600)}}
+
+// c02Twin: for every zone option the zone used for the second parse of the same message.
+var c02Twin = []int{2, 3, 4, 4, 3, 6, 5}
+
+func pickIndex(name string) int {
+	for i, t := range tzOptions {
+		if t.name == name {
+			return i
+		}
+	}
+	return 0
+}
 
 func genTripDesc(c *Ctx, p string, i int, rich bool) *gtfsrt.TripDescriptor {
 	d := &gtfsrt.TripDescriptor{}
@@ -320,6 +334,21 @@ func c02Harness(rich bool) Harness {
 		if wd != gd {
 			c.Fail(c02Signature(wd, gd), "result differs from the wire content (timezone=%s)\n%s", g.tz.name, diffLines(wd, gd))
 		}
+		// the same bytes under another zone, in the same process: the result must follow the option
+		// of THIS call (the twin of a fixed zone has the same name and another offset)
+		tz2 := tzOptions[c02Twin[pickIndex(g.tz.name)]]
+		r2, err2, ok2 := parseRT(c, b, &gtfs.ParseRealtimeOptions{Timezone: tz2.loc})
+		if !ok2 {
+			return
+		}
+		if err2 != nil {
+			c.Fail("valid-message-rejected", "second parse (timezone=%s): %v", tz2.name, err2)
+			return
+		}
+		want2 := refParse(g.msg, tz2.loc)
+		if wd2, gd2 := dumpRealtime(want2.rt, o), dumpRealtime(r2, o); wd2 != gd2 {
+			c.Fail("transcription-after-another-zone:"+firstDiffKind(wd2, gd2), "the same message parsed again with timezone=%s (after timezone=%s) differs from the wire content\n%s", tz2.name, g.tz.name, diffLines(wd2, gd2))
+		}
 		if g.tz.loc != nil && g.tz.loc != time.UTC {
 			c.Witness("non_utc_zone")
 		}
@@ -338,7 +367,7 @@ func init() {
 	register(&Check{
 		ID:    "C02",
 		Level: "model_checking",
-		Rule: "conflict-free messages from 2 trip + 2 vehicle descriptors in 6 entity slots (TU T1, VP V1, TU T2, VP V2, alert, id-less VP), 0-3 or 7 stop time updates, every optional wire field present/absent with boundary values (timestamps 0/1/2^31/DST-gap/2100, delays incl. int32 extremes, all enum values used by the library), x Timezone option {nil, UTC, +05:30, America/New_York, Europe/London}, x 3 entity orders; within k deviations (quick 2, thorough 3) of a sparse and a rich base; " +
+		Rule: "conflict-free messages from 2 trip + 2 vehicle descriptors in 6 entity slots (TU T1, VP V1, TU T2, VP V2, alert, id-less VP), 0-3 or 7 stop time updates, every optional wire field present/absent with boundary values (timestamps 0/1/2^31/DST-gap/2100, delays incl. int32 extremes, all enum values used by the library), x Timezone option {nil, UTC, +05:30, America/New_York, Europe/London, and two fixed zones that share the name EST but not the offset}, x 3 entity orders; within k deviations (quick 2, thorough 3) of a sparse and a rich base; " +
 			"non-trivial = distinct (message bytes, zone) with >= 2 entities; oracle = reference interpretation written from the statement",
 		Assumptions: []string{"protobuf-go Marshal/Unmarshal is trusted", "messages outside the quantifier (coinciding pool entries, empty vehicle descriptor inside a trip update) are executed for crash freedom only", "the harness embeds time/tzdata"},
 		Scenarios: func(tier string) []*Scenario {
